@@ -182,8 +182,10 @@ var badLexemes = []struct {
 	{"bad_number", "1.", false},
 	{"bad_number", "12e", false},
 	{"bad_number", "3.5e+", false},
-	{"unterminated_dollar", "$$abc", false},
-	{"unterminated_dollar", "$t$abc$", false},
+	{"unterminated_dollar", "$$abc", true},
+	{"unterminated_dollar", "$t$abc$", true},
+	{"unterminated_dollar", "$body$ abc\n\n  def\n", true},
+	{"unterminated_dollar", "$$\n\n", true},
 }
 
 func oracleErr(c ErrCase) error {
